@@ -1,2 +1,116 @@
+"""C07 flow B: H5 events (initbegin / initadd / initdone) of the hooks build validated by spec/Trace_Init.tla.
+
+Executions: every /repo/test/*.c, cproc's own preprocessed sources, and the generated initializers of flow A
+(as static and as automatic objects).  One `Reset` event separates executions; an execution whose offsets do
+not fit TLC's 32-bit integers (or whose logged list was truncated by the hook) is left out and counted.
+"""
+import glob, json, os, subprocess
+import vlib
+
+KEEP = ("initbegin", "initadd", "initdone")
+LIMIT = 1 << 27
+CPPFLAGS = ["-U__GNUC__", "-U__GNUC_MINOR__", "-D__STDC_NO_ATOMICS__", "-D__STDC_NO_COMPLEX__", "-U__SIZEOF_INT128__",
+            "-U__PIC__", "-D__extension__=", "-P"]
+
+
+def big(ev):
+    if ev["e"] == "initadd":
+        if ev["trunc"] or ev["end"] >= LIMIT:
+            return True
+        return any(x[1] >= LIMIT for x in ev["list"])
+    if ev["e"] == "initdone":
+        return ev["tsize"] >= LIMIT
+    return False
+
+
+def events_of(path):
+    out = []
+    if not os.path.exists(path):
+        return out
+    with open(path, errors="replace") as f:
+        for ln in f:
+            if ln.startswith('{"e":"init'):
+                try:
+                    ev = json.loads(ln)
+                except ValueError:
+                    continue          # a line cut short by a crash of the compiler
+                if ev.get("e") in KEEP:
+                    out.append(ev)
+    return out
+
+
 def run(ctx, tab, cases):
-    pass
+    import props.c07 as c07
+    hooks = c07.private_build(ctx, "hooks")
+    jobs = []           # (label, source text or None, path or None)
+    for pth in sorted(glob.glob(os.path.join(vlib.REPO, "test", "*.c"))):
+        jobs.append(("test/" + os.path.basename(pth), None, pth))
+    # cproc's own sources, preprocessed by the host cpp
+    own = 0
+    for pth in sorted(glob.glob(os.path.join(vlib.REPO, "*.c"))):
+        p = subprocess.run(["cpp"] + CPPFLAGS + ["-I", vlib.REPO, pth], stdout=subprocess.PIPE, stderr=subprocess.DEVNULL, text=True)
+        if p.returncode == 0:
+            jobs.append(("own/" + os.path.basename(pth), p.stdout, None))
+            own += 1
+    # generated initializers: static and automatic, batches of valid ones, risky ones alone
+    pre = c07.prelude(tab) + "struct P pv = {20818, 1398031702};\n"
+    safe = [c for c in cases if c["mst"] == "ok" and not c["sfired"] and not c["afired"] and not c["agg"]]
+    risky = [c for c in cases if not (c["mst"] == "ok" and not c["sfired"] and not c["afired"]) and not c["agg"]]
+    B = 200
+    for k in range(0, len(safe), B):
+        part = safe[k:k + B]
+        src = pre + "".join(c07.render_decl(tab, c, "x%d" % i) + "\n" for i, c in enumerate(part))
+        src += "".join("void f%d(void) { %s }\n" % (i, c07.render_decl(tab, c, "x")) for i, c in enumerate(part))
+        jobs.append(("gen/batch%d" % k, src, None))
+    for i, c in enumerate(risky):
+        jobs.append(("gen/risky%d-static" % i, pre + c07.render_decl(tab, c, "x") + "\n", None))
+        jobs.append(("gen/risky%d-auto" % i, pre + "void f(void) { %s }\n" % c07.render_decl(tab, c, "x"), None))
+
+    def one(job):
+        label, src, pth = job
+        tr = ctx.path("tr-" + label.replace("/", "_"))
+        rc, out, err = vlib.cproc(hooks, src, path=pth, trace=tr, timeout=120)
+        evs = events_of(tr)
+        try:
+            os.unlink(tr)
+        except OSError:
+            pass
+        return label, rc, evs
+    res = vlib.pmap(one, jobs, workers=12)
+    trace = ctx.path("init-trace.ndjson")
+    n_exec = n_ev = skipped = 0
+    index = []          # line number -> label
+    with open(trace, "w") as f:
+        for label, rc, evs in res:
+            if not evs:
+                continue
+            if any(big(e) for e in evs):
+                skipped += 1
+                continue
+            f.write('{"e":"Reset"}\n')
+            index.append(label)
+            for e in evs:
+                f.write(json.dumps(e) + "\n")
+                index.append(label)
+            n_exec += 1
+            n_ev += len(evs)
+    ctx.cov["h5_trace"] = {"executions": n_exec, "events": n_ev, "own_sources": own, "left_out_too_large": skipped}
+    if n_ev == 0:
+        raise vlib.MachineryError("no H5 events recorded (hooks build without CPROC_VERIF?)")
+    r = ctx.tlc("Trace_Init", "Trace_Init.cfg", workers=1, env={"TRACE": trace}, timeout=1500, heap="3g")
+    if r.rc == 0:
+        ctx.validated(n_exec)
+        ctx.count("h5-trace", nontrivial=True, n=n_ev)
+        return
+    rej = [v for v in r.out.splitlines() if "REJECT " in v]
+    where, ev = "?", None
+    if rej:
+        txt = rej[0]
+        txt = json.loads(txt) if txt.startswith('"') else txt
+        info = json.loads(txt[txt.index("REJECT ") + 7:])
+        ev = info["event"]
+        where = index[info["line"] - 1] if info["line"] - 1 < len(index) else "?"
+    else:
+        raise vlib.MachineryError("Trace_Init rejected the trace without a REJECT line:\n" + r.out[-3000:])
+    ctx.violation("trace:initadd:%s" % ev.get("e"), "H5 event of %s is not a step of Init!InitAdd: %s" % (where, json.dumps(ev)[:400]),
+                  {"execution": where, "event": ev})
